@@ -1,7 +1,9 @@
 //! avrosim - deterministic simulation with fault injection for apache-avro.
 
+mod alloc;
 mod anyvalue;
 mod c03;
+mod c05;
 mod c06;
 mod c13;
 mod c14;
@@ -16,6 +18,9 @@ mod rng;
 mod seams;
 
 use harness::{Property, Tier};
+
+#[global_allocator]
+static GLOBAL: alloc::CountingAlloc = alloc::CountingAlloc;
 
 fn usage() -> ! {
     eprintln!("usage: avrosim check <ID> <quick|thorough> | replay <file> | selfcheck [ID]");
@@ -78,6 +83,9 @@ fn main() {
             };
             let tier = if args[3] == "thorough" { Tier::Thorough } else { tier };
             println!("VERIF_SEED={}", seed());
+            if args[2] == "C05" {
+                std::process::exit(c05::check(seed(), tier));
+            }
             let code = dispatch!(args[2].as_str(), p => harness::check(&p, seed(), tier).exit_code);
             std::process::exit(code);
         }
@@ -100,8 +108,17 @@ fn main() {
                 }
             };
             let id = doc["property"].as_str().unwrap_or("").to_string();
+            if id == "C05" {
+                std::process::exit(c05::replay_in_child(&args[2]));
+            }
             let code = dispatch!(id.as_str(), p => harness::replay(&p, &doc, &args[2]));
             std::process::exit(code);
+        }
+        "c05child" => {
+            std::process::exit(c05::child_main(&args[2..]));
+        }
+        "c05exec" => {
+            std::process::exit(c05::exec_main(&args[2]));
         }
         "digest" => {
             // avrosim digest <ID> <runs> <workers>: prints the batch digest (determinism self-check)
